@@ -216,13 +216,61 @@ def r_execute(ctx):
                     r = st["r"]
                     if r["k"] == "Agg" and r.get("variant", "").startswith("Range") and len(r["o"]) == 2:
                         lo, hi = op_fconst(r["o"][0]), op_fconst(r["o"][1])
-            ctx.check(lo is not None and hi is not None and lo >= 0.0 and hi <= 0.3 + 1e-12, "C14.R4", [b.id, "jitter-range"], "jitter factor range within [0, 0.3]",
-                      "execute(): jitter factor range is %s..%s (not constant bounds within [0, 0.3]): the wait can exceed max_backoff + 30%% or become negative" % (lo, hi), c.loc(),
-                      sample={"range": [lo, hi]})
+            if lo is not None and hi is not None:
+                ctx.check(0.0 <= lo < hi <= 0.3 + 1e-12, "C14.R4", [b.id, "jitter-range"], "jitter factor range within [0, 0.3] and not empty",
+                          "execute(): jitter factor range is %s..%s (not a non-empty constant range within [0, 0.3]): the wait can exceed max_backoff + 30%%, "
+                          "become negative, or sampling panics on an empty range" % (lo, hi), c.loc(), sample={"range": [lo, hi]})
+            else:
+                # a computed range (`0..max_jitter`): whether it stays within 30%% is arithmetic (not decided); that it is never EMPTY is
+                # decidable in shape - random_range panics on an empty range, and the policy values that make the delay tiny are reachable
+                incl = any(re.search(r"RangeInclusive::<Idx>::new$", x.name) for a in c.args[1:] if op_local(a) is not None
+                           for x in Slice(b, [op_local(a)], transparent=True).calls)
+                ends = []
+                for a in c.args[1:]:
+                    if op_local(a) is None:
+                        continue
+                    for (bb_, idx_, st) in Slice(b, [op_local(a)], transparent=None).stmts:
+                        r = st["r"]
+                        if r["k"] == "Agg" and r.get("variant", "") == "Range" and len(r["o"]) == 2 and op_local(r["o"][1]) is not None:
+                            ends.append(op_local(r["o"][1]))
+                guarded = incl or (bool(ends) and all(nonzero_guarded(b, e, c.bb) for e in ends))
+                ctx.info("C14.R4: the jitter range of execute() is computed, not constant; that it adds at most 30% is not decided")
+                ctx.check(guarded, "C14.R3", [b.id, "jitter-range-not-empty"], "the computed jitter range cannot be empty where it is sampled",
+                          "execute() samples its jitter from a computed exclusive range `lo..hi` whose upper end is not established to be above the lower one on "
+                          "the path to the call: for a delay that rounds to zero (zero backoff, zero multiplier, Retry-After: 0) the range is empty and "
+                          "random_range panics ('cannot sample empty range') instead of retrying", c.loc(), sample={"range_end_locals": ends})
         subs = [c for c in b.calls if not c.expn and re.search(r"\bSub(Assign)?<.*>>?::sub(_assign)?$|Duration::(saturating_sub|checked_sub)$", c.name) and
                 any(op_local(a) in dsl.locals for a in c.args)]
         ctx.check(not subs, "C14.R4", [b.id, "jitter-added"], "jitter is added to the delay",
                   "execute() subtracts from the delay", subs[0].loc() if subs else sp.loc())
+
+
+def nonzero_guarded(b, l, call_bb):
+    """the value in local `l` (or a copy) is compared with the constant 0 (`> 0`, `!= 0`, `== 0`, `< 1` ...) and the call block is only reachable through
+    the edge on which it is non-zero"""
+    from .lib import bool_switches
+    from .facts import op_const
+    cls = Slice(b, [l], transparent=None).locals | {l}
+    for (i, j, st) in b.stmts():
+        r = st["r"]
+        if r["k"] != "Bin" or r["op"] not in ("Gt", "Ne", "Eq", "Lt", "Ge", "Le") or len(st["p"]) != 1:
+            continue
+        sides = r["o"]
+        for k in (0, 1):
+            v = op_local(sides[k])
+            c = op_const(sides[1 - k])
+            if v is None or c is None or str(c) not in ("0", "0.0", "1"):
+                continue
+            if v not in cls and not (Slice(b, [v], transparent=None).locals & cls):
+                continue
+            op = r["op"] if k == 0 else {"Gt": "Lt", "Lt": "Gt", "Ge": "Le", "Le": "Ge", "Ne": "Ne", "Eq": "Eq"}[r["op"]]
+            zero = str(c) in ("0", "0.0")
+            # edges on which v is known non-zero
+            for (sbb, tt, ft) in bool_switches(b, st["p"][0]):
+                nz = tt if ((op in ("Gt", "Ne") and zero) or (op == "Ge" and str(c) == "1")) else ft if ((op in ("Eq", "Le") and zero) or (op == "Lt" and str(c) == "1")) else None
+                if nz is not None and b.dominates(nz, call_bb) and not (set(b.pred[nz]) - {sbb}):
+                    return True
+    return False
 
 
 def direct_field(b, kind, payload, field, depth=2):
